@@ -10,7 +10,8 @@
 #define _GNU_SOURCE
 #include "v.h"
 #include "refgf.h"
-#include "gen_syms.h"
+#include "cpusim.h"
+#include "visa.h"
 #include <pthread.h>
 #include <link.h>
 #include <sys/wait.h>
@@ -117,6 +118,19 @@ static uint64_t sc_headers(arena_t *a, int v)
 	isal_inflate_init(is); isal_gzip_header_init(g2); g2->name = nb; g2->name_buf_len = 64; is->next_in = a->out + a->shift; is->avail_in = (uint32_t) hl; int r2 = isal_read_gzip_header(is, g2); h = H(h, &r2, 4); h = H(h, &g2->time, 4); h = H(h, &g2->os, 4); h = H(h, nb, 9); h = H(h, &g2->hcrc, 0);
 	return h;
 }
+/* a histogram struct used for two consecutive chunks (documented multi-buffer use): the counts must not depend on where the chunks live */
+static uint64_t sc_histogram_reuse(arena_t *a, int v)
+{
+	/* first chunk > 32 KiB of data with a short period, second chunk continuing it: a position left in the struct's scratch hash table by
+	 * the first call would, in the second call, look back in front of the second chunk - where the first chunk is (arena 0) or is not (arena 1) */
+	struct isal_huff_histogram *hg = (struct isal_huff_histogram *) (a->aux + a->shift); uint64_t h = 12; int P = 256 << (v & 3); size_t la = 65536 - 2048 * (size_t) (2 + (v >> 2) % 6), lb = 1500 + 173 * (size_t) (v % 13);
+	uint8_t *ca = a->out + 1024 + a->shift, *cb = a->shift ? a->aux2 + 40000 + a->shift : ca + la;
+	if (v & 16) { memcpy(ca, IN_TEXT, la); memcpy(cb, IN_TEXT + la, lb); } else { for (size_t i = 0; i < la; i++) ca[i] = IN_RAND[(i % P) + 2100 * (v % 29)]; for (size_t i = 0; i < lb; i++) cb[i] = IN_RAND[((la + i) % P) + 2100 * (v % 29)]; }
+	memset(hg, 0, sizeof *hg); isal_update_histogram(ca, (int) la, hg);
+	if (v & 32) memset(hg->hash_table, a->lvl[3], sizeof hg->hash_table);   /* 'Tmp space used as a hash table': what a call leaves there must not matter to the next */
+	isal_update_histogram(cb, (int) lb, hg);
+	h = H(h, hg->lit_len_histogram, sizeof hg->lit_len_histogram); h = H(h, hg->dist_histogram, sizeof hg->dist_histogram); return h;
+}
 /* reuse histories: a context that was used, then reset / re-initialised, must behave like a fresh one */
 static uint64_t run_stream_once(struct isal_zstream *s, arena_t *a, int level, int wr, const uint8_t *in, size_t n, int set_user_fields)
 {
@@ -144,7 +158,7 @@ static uint64_t sc_reuse_inflate(arena_t *a, int v)
 typedef uint64_t (*scen_fn)(arena_t *, int);
 static struct { const char *name; scen_fn fn; int nvar; int group_mask; /* variants are compared within (v & ~group_mask)==const groups: 0 = each variant only with itself */ } SC[] = {
 	{ "deflate_stateless", sc_deflate_stateless, 160, 0 }, { "deflate_streaming", sc_deflate_stream, 160, 0 }, { "inflate", sc_inflate, 16, 0 }, { "hufftables", sc_hufftables, 40, 0 }, { "dictionary", sc_dict, 64, 0 },
-	{ "erasure_code", sc_ec, 60, 0 }, { "checksums_zero_detect", sc_crc, 60, 0 }, { "raid", sc_raid, 60, 0 }, { "headers", sc_headers, 16, 0 }, { "reuse_deflate", sc_reuse, 64, 0x30 }, { "reuse_inflate", sc_reuse_inflate, 32, 0x18 },
+	{ "erasure_code", sc_ec, 60, 0 }, { "checksums_zero_detect", sc_crc, 60, 0 }, { "raid", sc_raid, 60, 0 }, { "headers", sc_headers, 16, 0 }, { "histogram_reuse", sc_histogram_reuse, 64, 0 }, { "reuse_deflate", sc_reuse, 64, 0x30 }, { "reuse_inflate", sc_reuse_inflate, 32, 0x18 },
 };
 #define NSCEN ((int) (sizeof SC / sizeof SC[0]))
 static arena_t new_arena(void)
@@ -242,16 +256,59 @@ static long resolve_all_slots(void)
 #undef X
 	return n;
 }
+/* every exported checksum / RAID / zero-detect kernel variant called directly with short and medium lengths (under page protection) */
+#define X(s, n, isa) extern char ksym_##s[] __asm__(#s);
+V_CRC16_LIST(X) V_CRC16COPY_LIST(X) V_CRC32IEEE_LIST(X) V_CRC32GZIP_LIST(X) V_CRC32ISCSI_LIST(X) V_CRC64_LIST(X) V_ADLER_LIST(X) V_XORGEN_LIST(X) V_PQGEN_LIST(X) V_XORCHECK_LIST(X) V_PQCHECK_LIST(X) V_ZERODET_LIST(X)
+#undef X
+static long direct_variant_calls(arena_t *a)
+{
+	long n = 0; static const int lens[] = { 0, 1, 7, 15, 16, 31, 33, 64, 127, 272, 400, 1040 }; uint8_t *dst = a->out; const uint8_t *p = IN_RAND + 5;
+	for (unsigned li = 0; li < sizeof lens / sizeof lens[0]; li++) { uint64_t len = lens[li];
+#define X(s, nn, isa) if (v_isa_ok(isa) == 1) { ((uint16_t (*)(uint16_t, const uint8_t *, uint64_t)) ksym_##s)(1, p, len); n++; }
+		V_CRC16_LIST(X)
+#undef X
+#define X(s, nn, isa) if (v_isa_ok(isa) == 1) { ((uint16_t (*)(uint16_t, uint8_t *, const uint8_t *, uint64_t)) ksym_##s)(1, dst, p, len); n++; }
+		V_CRC16COPY_LIST(X)
+#undef X
+#define X(s, nn, isa) if (v_isa_ok(isa) == 1) { ((uint32_t (*)(uint32_t, const uint8_t *, uint64_t)) ksym_##s)(1, p, len); n++; }
+		V_CRC32IEEE_LIST(X) V_CRC32GZIP_LIST(X) V_ADLER_LIST(X)
+#undef X
+#define X(s, nn, isa) if (v_isa_ok(isa) == 1) { ((unsigned (*)(const uint8_t *, int, unsigned)) ksym_##s)(p, (int) len, 1); n++; }
+		V_CRC32ISCSI_LIST(X)
+#undef X
+#define X(s, nn, isa) if (v_isa_ok(isa) == 1) { ((uint64_t (*)(uint64_t, const uint8_t *, uint64_t)) ksym_##s)(1, p, len); n++; }
+		V_CRC64_LIST(X)
+#undef X
+#define X(s, nn, isa) if (v_isa_ok(isa) == 1) { ((int (*)(const void *, size_t)) ksym_##s)(p, len); n++; }
+		V_ZERODET_LIST(X)
+#undef X
+	}
+	{ void *arr[6]; uint8_t *base = (uint8_t *) (((uintptr_t) a->out + 8192 + 63) & ~63ul); for (int i = 0; i < 4; i++) arr[i] = (void *) (((uintptr_t) IN_RAND + 63 + 4096 * i) & ~63ul); arr[4] = base; arr[5] = base + 4096; static const int rl[] = { 32, 64, 96, 161, 1024 };
+	  for (unsigned li = 0; li < 5; li++) { int len = rl[li];
+#define X(s, nn, isa) if (v_isa_ok(isa) == 1) { ((int (*)(int, int, void **)) ksym_##s)(5, len, arr); n++; }
+		V_XORGEN_LIST(X) V_XORCHECK_LIST(X)
+#undef X
+		if (len % 32 == 0) {
+#define X(s, nn, isa) if (v_isa_ok(isa) == 1) { ((int (*)(int, int, void **)) ksym_##s)(6, len, arr); n++; }
+		V_PQGEN_LIST(X) V_PQCHECK_LIST(X)
+#undef X
+		} } }
+	return n;
+}
 static void mode_threads(int protect)
 {
 	int nt = 16; pthread_t th[16]; static thr_arg args[16]; have_baseline = protect;
 	if (protect) {
-		long nres = resolve_all_slots(); v_stat("entry_points_resolved_before_protection", nres); if (nres < 30) v_harness_fail("only %ld entry points could be resolved directly", nres);
+		long nres; const char *lv = strchr(vopt.mode, ':');
+		if (lv && strcmp(lv + 1, "native")) { const cpucfg *c = cpusim_find(lv + 1); if (!c) v_harness_fail("unknown cpu level %s", lv + 1); if (!cpusim_host_can(c)) { v_set("cpu_levels_skipped", lv + 1); v_stat("evaluations", 1); return; } cpusim_apply(c); nres = cpusim_n; v_set("cpu_levels", lv + 1); }
+		else { nres = resolve_all_slots(); v_set("cpu_levels", "native"); }
+		v_stat("entry_points_resolved_before_protection", nres); if (nres < 30) v_harness_fail("only %ld entry points could be resolved directly", nres);
 		int found = 0; dl_iterate_phdr(phdr_cb, &found); if (!found || !n_ro) v_harness_fail("libisal.so writable segments not found (not a shared-library build?)");
 		struct sigaction sa; memset(&sa, 0, sizeof sa); sa.sa_sigaction = ro_fault; sa.sa_flags = SA_SIGINFO; sigaction(SIGSEGV, &sa, 0); sigaction(SIGBUS, &sa, 0);
 		ro_protect(1);
 	}
-	for (int i = 0; i < nt; i++) { args[i].id = i; args[i].a = new_arena(); args[i].runs = 0; if (protect) thr_work(&args[i], 1); }   /* serial results (same arguments, same buffers), already under protection */
+	for (int i = 0; i < nt; i++) { args[i].id = i; args[i].a = new_arena(); args[i].runs = 0; if (protect) thr_work(&args[i], 1); }
+	if (protect) v_stat("direct_kernel_variant_calls_under_protection", direct_variant_calls(&args[0].a));   /* serial results (same arguments, same buffers), already under protection */
 	have_baseline = protect;
 	for (int i = 0; i < nt; i++) pthread_create(&th[i], 0, thr_main, &args[i]);
 	long runs = 0; for (int i = 0; i < nt; i++) { pthread_join(th[i], 0); runs += args[i].runs; }
@@ -296,6 +353,6 @@ int main(int argc, char **argv)
 		make_inputs(); mode_cold(); return v_finish();
 	}
 	make_inputs();
-	if (!strcmp(vopt.mode, "ro")) mode_threads(1); else if (!strcmp(vopt.mode, "threads")) mode_threads(0); else mode_prefill();
+	if (!strncmp(vopt.mode, "ro", 2)) mode_threads(1); else if (!strcmp(vopt.mode, "threads")) mode_threads(0); else mode_prefill();
 	return v_finish();
 }
